@@ -10,9 +10,12 @@ from sa.bounds import access_sites, addr_size
 mod = importlib.import_module("rules." + sys.argv[1])
 ex = Extraction("/repo")
 units = [u for u in library_units("/repo") if "external" not in u]
-outs = ex.extract(units, "ship")
+import os
+rep = dict(x.split("=") for x in os.environ.get("REPLACE", "").split(",") if x)
+units2 = [rep.get(u, u) for u in units]
+outs = ex.extract(units2, "ship")
 P = Program()
-for r in units:
+for r in units2:
     P.add(outs[r])
 P.add(ex.headers_unit("ship", None, None))
 f = P.fn(sys.argv[2])
